@@ -23,7 +23,11 @@ RULE = ("cases = (line ending out of 5, list of <=30 ops: add_writer(k) (new "
         "non-ASCII text and trailing blanks, move/comment/annotate calls, "
         "flush, teardown (after which writers may be re-added), the line ending "
         "changed on the live builder) over a pool "
-        "of 6 writers of 5 kinds; non-trivial = >=2 registered writers of "
+        "of 8 writers of 7 kinds (custom recorder, path file x2, BytesIO, "
+        "StringIO, caller-opened text file, ConsoleWriter on a fake terminal, "
+        "LogWriter with a capturing handler), optionally plus the writers the "
+        "builder creates itself from output=/print_lines=, optionally leaving "
+        "the builder as a context manager; non-trivial = >=2 registered writers of "
         "different kinds and a change of the set between two emits; distinct "
         "by SHA-1")
 ASSUMPTIONS = [
@@ -43,7 +47,31 @@ LEVEL_TEXT = ("Generated histories over a mixed writer pool compared with a "
               "reference model after every emit, flush and teardown; "
               "exploration.")
 
-KINDS = ["recorder", "path", "bytesio", "stringio", "textfile", "path"]
+KINDS = ["recorder", "path", "bytesio", "stringio", "textfile", "path", "console", "log"]
+CFG_OUTPUTS = [None, None, "cfg_path", "cfg_bytesio", "cfg_stringio"]
+
+
+class _Tty(io.BytesIO):
+    """stdout.buffer of a terminal: ConsoleWriter flushes after every line."""
+    flushes = 0
+
+    def isatty(self):
+        return True
+
+    def flush(self):
+        self.flushes += 1
+        return super().flush()
+
+
+class _FakeStdout:
+    def __init__(self):
+        self.buffer = _Tty()
+
+    def write(self, s):
+        self.buffer.write(s.encode("utf-8"))
+
+    def flush(self):
+        pass
 TEXTS = ["G1 X1", "G1 X1   ", "M3 S100 ; spindle", "; ümlaut ✓ 文字", "(msg, héllo)\t ",
          "G0 Z5", "", "   ", "; a", "T1 M6",
          # unicode line boundaries other than CR/LF must stay inside the one line
@@ -52,9 +80,12 @@ TEXTS = ["G1 X1", "G1 X1   ", "M3 S100 ; spindle", "; ümlaut ✓ 文字", "(msg
 
 class Pool:
     def __init__(self, tmp):
-        from gscrib.writers import FileWriter
+        import logging
+        import sys
+        from gscrib.writers import FileWriter, ConsoleWriter, LogWriter
         self.tmp = tmp
         self.disc = [0] * len(KINDS)
+        self.log_records = []
         pool = self
 
         def spy(idx, base):
@@ -89,6 +120,40 @@ class Pool:
                 sbuf = io.StringIO(newline="")
                 w = spy(i, FileWriter)(sbuf)
                 self.readers.append(lambda sbuf=sbuf: sbuf.getvalue().encode("utf-8"))
+            elif k == "console":
+                fake, real = _FakeStdout(), sys.stdout
+                sys.stdout = fake
+                try:
+                    w = spy(i, ConsoleWriter)()
+                finally:
+                    sys.stdout = real
+                self.readers.append(lambda fake=fake: fake.buffer.getvalue())
+            elif k == "log":
+                idx = i
+
+                class LSpy(LogWriter):
+                    __slots__ = ("got",)
+
+                    def write(self, statement):
+                        self.got += bytes(statement)
+                        return super().write(statement)
+
+                    def disconnect(self, wait=True):
+                        pool.disc[idx] += 1
+                        return super().disconnect(wait)
+                w = LSpy()
+                w.got = b""
+                lg = w.get_logger()
+
+                class H(logging.Handler):
+                    def emit(self, record):
+                        pool.log_records.append(record.getMessage())
+                self.log_handler, self.logger = H(), lg
+                self.logger_state = (lg.level, lg.propagate)
+                lg.addHandler(self.log_handler)
+                lg.propagate = False
+                w.set_level("info")
+                self.readers.append(lambda w=w: w.got)
             elif k == "textfile":
                 tpath = os.path.join(tmp, "text.gcode")
                 fh = open(tpath, "w", encoding="utf-8", newline="")
@@ -102,6 +167,9 @@ class Pool:
             self.fh.close()
         except Exception:
             pass
+        self.logger.removeHandler(self.log_handler)
+        self.logger.setLevel(self.logger_state[0])
+        self.logger.propagate = self.logger_state[1]
 
 
 def run_case(case, cl=None):
@@ -110,26 +178,66 @@ def run_case(case, cl=None):
     tmp = tempfile.mkdtemp(prefix="c14-")
     try:
         cfg_eol, eol = eol_of(case["eol"])
-        g = gscrib.GCodeBuilder(line_endings=cfg_eol)
         pool = Pool(tmp)
+        # writers the builder creates itself from its configuration (output=,
+        # print_lines=): registered from the start until the first teardown
+        kw, cfg_readers = {}, []
+        out_kind = case.get("cfg_output")
+        if out_kind == "cfg_path":
+            cpath = os.path.join(tmp, "cfg", "deep", "job.gcode")
+            kw["output"] = cpath
+            cfg_readers.append(("cfg_path", lambda: open(cpath, "rb").read()
+                                if os.path.exists(cpath) else b""))
+        elif out_kind == "cfg_bytesio":
+            cbuf = io.BytesIO()
+            kw["output"] = cbuf
+            cfg_readers.append(("cfg_bytesio", cbuf.getvalue))
+        elif out_kind == "cfg_stringio":
+            csbuf = io.StringIO(newline="")
+            kw["output"] = csbuf
+            cfg_readers.append(("cfg_stringio", lambda: csbuf.getvalue().encode("utf-8")))
+        import sys
+        fake_out, real_out = _FakeStdout(), sys.stdout
+        if case.get("cfg_print"):
+            kw["print_lines"] = True
+            # the console writer comes first in the builder's list
+            cfg_readers.insert(0, ("cfg_console", fake_out.buffer.getvalue))
+            sys.stdout = fake_out
+        try:
+            g = gscrib.GCodeBuilder(line_endings=cfg_eol, **kw)
+        finally:
+            sys.stdout = real_out
+        if cfg_readers:
+            cl.add("writers_from_configuration")
+        kinds = KINDS + [k for k, _ in cfg_readers]
+        pool.readers.extend(r for _, r in cfg_readers)
         ref = recorder_class()()
         g.add_writer(ref)
-        registered = []                    # indices, in order
-        expected = [b""] * len(KINDS)
-        is_open = [False] * len(KINDS)     # path writers: file currently open
+        registered = list(range(len(KINDS), len(kinds)))     # indices, in order
+        expected = [b""] * len(kinds)
+        is_open = [False] * len(kinds)     # path writers: file currently open
+        log_expected = []
         emits = 0
         changed_since_emit = False
 
         def deliver(data):
             for i in registered:
-                if KINDS[i] == "path" and not is_open[i]:
+                if kinds[i] in ("path", "cfg_path") and not is_open[i]:
                     expected[i] = b""      # (re)opening truncates
                     is_open[i] = True
                 expected[i] += data
+                if kinds[i] == "log":
+                    log_expected.append(data.decode("utf-8").strip())
+                if kinds[i] in ("console", "cfg_console"):
+                    cl.add("console_writer")
 
         def check_all(where, only_memory=False, skip=()):
-            for i, k in enumerate(KINDS):
-                if only_memory and k in ("path", "textfile"):
+            if pool.log_records != log_expected:
+                raise Violation(f"{where}: LogWriter logged {pool.log_records[-3:]!r} "
+                                f"({len(pool.log_records)} records), expected "
+                                f"{log_expected[-3:]!r} ({len(log_expected)})")
+            for i, k in enumerate(kinds):
+                if only_memory and k in ("path", "textfile", "cfg_path"):
                     continue
                 if i in skip:
                     continue
@@ -174,8 +282,8 @@ def run_case(case, cl=None):
                             and eol not in op["text"]:
                         raise Violation(f"{where}: emitted {data!r} is not one line")
                 deliver(data)
-                kinds = {KINDS[i] for i in registered}
-                if len(kinds) >= 2:
+                kset = {kinds[i] for i in registered}
+                if len(kset) >= 2:
                     cl.add("two_kinds_registered")
                     if changed_since_emit and emits > 0:
                         cl.add("NT")
@@ -203,8 +311,10 @@ def run_case(case, cl=None):
                 for i in registered:
                     pass
                 # flushed writers must now show everything on disk
-                for i, k in enumerate(KINDS):
-                    if i in registered or k in ("recorder", "bytesio", "stringio"):
+                for i, k in enumerate(kinds):
+                    if i in registered or k in ("recorder", "bytesio", "stringio", "console",
+                                                "log", "cfg_bytesio", "cfg_stringio",
+                                                "cfg_console"):
                         got = pool.readers[i]()
                         if got != expected[i]:
                             raise Violation(f"{where}: after flush writer #{i} ({k}) holds "
@@ -214,13 +324,13 @@ def run_case(case, cl=None):
             elif name == "teardown":
                 before = list(pool.disc)
                 g.teardown()
-                for i in range(len(KINDS)):
+                for i in range(len(KINDS)):      # config-created writers cannot be spied on
                     want = 1 if i in registered else 0
                     if pool.disc[i] - before[i] != want:
                         raise Violation(f"{where}: writer #{i} ({KINDS[i]}) saw "
                                         f"{pool.disc[i] - before[i]} disconnect(s), expected {want}")
                 for i in registered:
-                    if KINDS[i] == "path":
+                    if kinds[i] in ("path", "cfg_path"):
                         is_open[i] = False
                 try:
                     g.get_writer(0)
@@ -233,7 +343,7 @@ def run_case(case, cl=None):
                 pool.fh.flush()
                 # a path writer that was removed while its file is open is
                 # neither flushed nor closed by the builder: not judged
-                check_all(where, skip=[i for i, k in enumerate(KINDS) if k == "path"
+                check_all(where, skip=[i for i, k in enumerate(kinds) if k == "path"
                                        and is_open[i] and i not in registered])
                 registered = []
                 g.add_writer(ref)
@@ -243,7 +353,17 @@ def run_case(case, cl=None):
                 raise HarnessError("unknown op")
         g.flush()
         pool.fh.flush()
-        for i, k in enumerate(KINDS):
+        if case.get("cfg_with"):
+            # the builder as a context manager: leaving the block tears down,
+            # after which path-based output is complete on disk
+            with g:
+                pass
+            cl.add("builder_as_context_manager")
+            for i in registered:
+                if kinds[i] in ("path", "cfg_path"):
+                    is_open[i] = False
+            registered = []
+        for i, k in enumerate(kinds):
             if k == "path" and is_open[i] and i not in registered:
                 continue      # removed while open: never flushed by the builder
             got = pool.readers[i]()
@@ -280,6 +400,9 @@ def strategy(n):
         st.just({"op": "other_builder"}))
     return st.fixed_dictionaries({
         "eol": st.sampled_from(["lf", "crlf", "cr", "rawlf", "rawcrlf"]),
+        "cfg_output": st.sampled_from(CFG_OUTPUTS),
+        "cfg_print": st.sampled_from([False, False, False, True]),
+        "cfg_with": st.booleans(),
         "ops": st.lists(op, min_size=1, max_size=n)})
 
 
